@@ -10,13 +10,13 @@ P = {
  "C01": ("Every parse entry point and accessor/iterator/conversion is verified without precondition beyond the value's type invariant "
          "(established by parse): Verus discharges every index, slice, unwrap, overflow and termination obligation for all byte strings; "
          "iterator `next` contracts carry a decreasing measure bounded by the input length.",
-         "std adapter internals behind chunks_exact/slice::Iter/Vec::iter and String::from_utf8 (get_*_string helpers are external) are assumed panic-free; "
+         "std adapter internals behind chunks_exact/slice::Iter/Vec::iter and String::from_utf8 / Vec::from(&[u8]) are assumed panic-free (A-utf8; Bye::get_reason_string and SdesItem::get_value_string are verified, App::get_name_string (iterator adapters map_while / from_iter) stays external); "
          "Rpsi and SdesItem accessors rely on `parse` being the only constructor (values are built before validation, so no type invariant)."),
  "C06": ("Trait contract `calculate_size == spec_calc` and `write_into_unchecked returns len` on every builder; the generic write_into is proved once "
          "against it (Ok(n) / OutputTooSmall(n) / same error); panic-freedom of every writer under exactly-sized buffers.",
          "NACK builder: encoder next/entries/calculate_size/write loop are verified; assumed are BTreeSet iteration order (A-btree) and Iterator::count (A-count), cross-checked by the bounded NACK family; third-party writers are assumed to satisfy the trait contract."),
  "C07": ("`final(buf)@ == img_T(config)` for every builder, where img_T is the RFC image written in the independent RFC layer (rfc.rs); bit packing by bit_vector lemmas.",
-         "FIR iteration order (A-hashiter), BTreeSet order (A-btree) and FirBuilder::add_ssrc are assumed (bounded NACK / FIR families stand in); rfc.rs itself is the oracle."),
+         "FIR iteration order (A-hashiter), BTreeSet order (A-btree) and the HashMap entry API inside FirBuilder::add_ssrc (A-entry) are assumed (bounded NACK / FIR families stand in); rfc.rs itself is the oracle."),
  "C08": ("`parse is Ok ==> framed(...)` with count-dependent body bounds per type, header accessors equal the RFC header functions; generic helper proved for all P.",
          "third-party P must have MIN_PACKET_LEN >= 4 and VERSION == 2 (precondition of the public helper)."),
  "C09": ("Every accessor's result equals the RFC field function of the input bytes (big-endian values, sub-ranges at RFC offsets); must-accept direction via `accept <==> *_ok`.",
@@ -25,13 +25,13 @@ P = {
          "listed malformations are rejected, anything accepted is the tokenisation of the bytes.", "—"),
  "C11": ("`Compound::parse is Ok <==> non-empty and tiles_ok`; `next` transition contract (tile = generic parse of that tile, stop after first error, fused, tile-count measure).", "—"),
  "C12": ("Every typed parser matches a total functional outcome spec (errors included); Packet::parse is proved to return that spec of the type named by the PT octet; "
-         "all 7x4 conversions have variant-wise contracts.", "derived Clone of parsed types is given the contract r == *self (rule R18)."),
+         "all 7x4 conversions have variant-wise contracts.", "derived Clone of the parsed types is expanded to its field-wise impl and verified (rule R18: r == *self, deep views for Sdes / SdesChunk); assumed: vstd's Vec::clone spec."),
  "C13": ("Accessor contracts are equalities with RFC content functions of the bytes that ignore the padding trailer (fb_fci, app_data, bye_reason, sdes body end); "
          "padding accessor equality; lemmas per type in lemmas.rs.", "—"),
  "C14": ("CompoundBuilder proved over the dyn trait contract only: accepts iff every member valid and no non-last padding, size = sum, bytes = concatenation.",
          "third-party members are assumed to satisfy the trait contract; sum of member sizes fits usize (A-lang)."),
  "C15": ("parse_fci gate (kind and format) and `FCI parser sees fb_fci(bytes)`; NACK/FIR/SLI iterator `next` contracts against recursive RFC enumerations; RPSI/PLI accessors.",
-         "the two bool-operator impls of FciFeedbackPacketType are external_body with their meaning given via vstd's BitAndSpecImpl/PartialEqSpecImpl."),
+         "the two bool-operator impls of FciFeedbackPacketType are external_body shells whose bodies are verified through verbatim inherent copies (rule R24); `&` / `|` on bool are conjunction / disjunction (A-bitops, closed by the complete Kani proof fci_gate in the thorough tier)."),
  "C16": ("`calculate_size is Ok <==> representable(config)` and `Err(e) ==> e names a violated rule with the offending value` per builder.",
          "total size > 65536 words is a recorded known finding (carve-out on the total-size clause)."),
  "C17": ("Frame clauses: written bytes equal the image (independent of old contents), bytes beyond n unchanged, failed writes leave the buffer unchanged; proved for every writer and the generic write_into.",
@@ -40,7 +40,7 @@ P = {
  "C19": ("Public helpers proved generically in P; UnknownBuilder image; tests/custom_packet.rs verified as an instance of a third-party type.",
          "one recorded known finding in the third-party example (CustomBuilder::calculate_size)."),
  "C20": ("Whole-view postconditions on every setter/adder/owned variant; size and bytes are functions of the view; wrapper/forwarding contracts.",
-         "Cow conversions keep bytes (A-cow); derive(Default) builders start empty (external_body contracts)."),
+         "Cow conversions keep bytes (A-cow); Box unsizing (A-box); the std HashMap entry API statement of FirBuilder::add_ssrc (A-entry, bounded FIR family stands in)."),
  "C02": ("Round trip stated as verified programs over the real API (build into an exactly sized buffer, parse, read every field and block back) plus spec-level lemmas "
          "`sr_ok(img_sr(cfg))`, `field(img) == cfg.field`; composed only from the contracts of the real writer and parser functions.", "—"),
  "C03": ("SDES round trip: lemmas over the contracts (a chunk image is accepted by the RFC 3550 chunk grammar as exactly its items; the chunk images tile the packet body; "
